@@ -1806,18 +1806,7 @@ Proof.
   apply Hs. apply in_seq. lia.
 Qed.
 
-(* the faithful model of _parse_tensordot_axes_to_matmul mishandles a negative axis of b:
-   axis -1 of a rank-1 array is its axis 0, yet the model (like the code) contracts nothing *)
-Theorem tensordot_negative_axes_refuted :
-  exists a b : tensor,
-    wf_tensor a = true /\ wf_tensor b = true /\
-    tensordot (AxPair [0%Z] [(-1)%Z]) a b <> Some (tensordot_ref [0] [0] a b) /\
-    tensordot (AxPair [0%Z] [0%Z]) a b = Some (tensordot_ref [0] [0] a b).
-Proof.
-  exists ([2], [1%Z; 2%Z]), ([2], [3%Z; 4%Z]).
-  split; [reflexivity|]. split; [reflexivity|]. split; [|vm_compute; reflexivity].
-  vm_compute. intros H. discriminate H.
-Qed.
+
 
 (* ================================================================== *)
 (* PART 5 (FullFacts): end-to-end correctness chain *)
@@ -1887,6 +1876,50 @@ Proof.
   cbn [app]. rewrite ff_split_on_app by (apply ff_labels_notin; [unfold ARROW; lia|exact Hl]).
   rewrite ff_split_on_nosep by (apply ff_labels_notin; [unfold ARROW; lia|exact Ho]).
   reflexivity.
+Qed.
+
+(* the same when the left-hand side also contains commas (two-operand equations) *)
+Theorem ff_sanitize_explicit_gen lhs out :
+  Forall (fun c => 4 <= c \/ c = COMMA) lhs -> Forall (fun c => 4 <= c) out ->
+  sanitize (eq1 lhs out) = Some (lhs, out).
+Proof.
+  intros Hl Ho. unfold sanitize, eq1.
+  assert (HA : Forall (fun c => 4 <= c \/ c = COMMA \/ c = ARROW) (lhs ++ [ARROW] ++ out)).
+  { apply Forall_app. split; [|apply Forall_app; split].
+    - eapply Forall_impl; [|exact Hl]. cbv beta. intros a [H|H]; [left|right; left]; assumption.
+    - constructor; [right; right; reflexivity|constructor].
+    - eapply Forall_impl; [|exact Ho]. cbv beta. intros; left; assumption. }
+  assert (HnA : ~ In ARROW lhs).
+  { intros Hin. rewrite Forall_forall in Hl. destruct (Hl _ Hin) as [H|H]; unfold ARROW, COMMA in *; lia. }
+  rewrite ff_remove_all_id.
+  2:{ intros Hin. rewrite Forall_forall in HA. destruct (HA _ Hin) as [H|[H|H]]; unfold SPACE, ARROW, COMMA in *; lia. }
+  rewrite ff_has_ellipsis_false.
+  2:{ intros Hin. rewrite Forall_forall in HA. destruct (HA _ Hin) as [H|[H|H]]; unfold DOT, ARROW, COMMA in *; lia. }
+  assert (Em : memb ARROW (lhs ++ [ARROW] ++ out) = true).
+  { apply memb_In. apply in_app_iff. right. left. reflexivity. }
+  rewrite Em. cbn [negb].
+  cbn [app]. rewrite ff_split_on_app by exact HnA.
+  rewrite ff_split_on_nosep by (apply ff_labels_notin; [unfold ARROW; lia|exact Ho]).
+  reflexivity.
+Qed.
+
+(* L1 of the two-operand chain: on an explicit, blank-free equation the parser just splits *)
+Lemma ff_parse_bmm_eq2 ta tb out sa sb :
+  Forall (fun c => 4 <= c) ta -> Forall (fun c => 4 <= c) tb -> Forall (fun c => 4 <= c) out ->
+  parse_bmm (eq2 ta tb out) sa sb = parse_bmm_terms ta sa tb sb out.
+Proof.
+  intros Ha Hb Ho. unfold parse_bmm.
+  replace (eq2 ta tb out) with (eq1 (ta ++ COMMA :: tb) out)
+    by (unfold eq1, eq2; rewrite <- app_assoc; reflexivity).
+  rewrite ff_sanitize_explicit_gen; [| |exact Ho].
+  - unfold parse_bmm_split.
+    rewrite ff_split_on_app by (apply ff_labels_notin; [unfold COMMA; lia|exact Ha]).
+    rewrite ff_split_on_nosep by (apply ff_labels_notin; [unfold COMMA; lia|exact Hb]).
+    reflexivity.
+  - apply Forall_app. split.
+    + eapply Forall_impl; [|exact Ha]. cbv beta. intros; left; assumption.
+    + constructor; [right; reflexivity|].
+      eapply Forall_impl; [|exact Hb]. cbv beta. intros; left; assumption.
 Qed.
 
 (* ================================================================== *)
@@ -2242,8 +2275,7 @@ Proof.
   assert (Hj0 : j <> 0) by lia. assert (Hj1 : j <> 1) by lia.
   assert (Hk0 : k <> 0) by lia. assert (Hk1 : k <> 1) by lia.
   assert (Hm1 : m <> 1) by lia. assert (Hkk1 : kk <> 1) by lia. assert (Hn1 : n <> 1) by lia.
-  unfold parse_bmm, eq2, COMMA, ARROW.
-  ff_decide.
+  rewrite ff_parse_bmm_eq2 by (repeat constructor; assumption).
   unfold parse_bmm_terms, classify.
   ff_decide.
   unfold mk_pre.
@@ -2881,23 +2913,7 @@ Qed.
 Lemma pl_parse_bmm_split ta tb out sa sb :
   Forall (fun c => 4 <= c) ta -> Forall (fun c => 4 <= c) tb -> Forall (fun c => 4 <= c) out ->
   parse_bmm (eq2 ta tb out) sa sb = parse_bmm_terms ta sa tb sb out.
-Proof.
-  intros Ha Hb Ho.
-  unfold parse_bmm, eq2.
-  assert (E1 : split_on ARROW (ta ++ [COMMA] ++ tb ++ [ARROW] ++ out) = [ta ++ COMMA :: tb; out]).
-  { replace (ta ++ [COMMA] ++ tb ++ [ARROW] ++ out) with ((ta ++ COMMA :: tb) ++ ARROW :: out)
-      by (rewrite <- app_assoc; reflexivity).
-    rewrite ff_split_on_app.
-    - rewrite ff_split_on_nosep; [reflexivity|]. apply ff_labels_notin; [unfold ARROW; lia|assumption].
-    - intros Hin. apply in_app_or in Hin. destruct Hin as [Hin|[Hin|Hin]].
-      + revert Hin. apply ff_labels_notin; [unfold ARROW; lia|assumption].
-      + discriminate Hin.
-      + revert Hin. apply ff_labels_notin; [unfold ARROW; lia|assumption]. }
-  rewrite E1.
-  rewrite ff_split_on_app by (apply ff_labels_notin; [unfold COMMA; lia|assumption]).
-  rewrite ff_split_on_nosep by (apply ff_labels_notin; [unfold COMMA; lia|assumption]).
-  reflexivity.
-Qed.
+Proof. exact (ff_parse_bmm_eq2 ta tb out sa sb). Qed.
 
 (* ------------------------------------------------------------------ *)
 (* L2: classification when every dimension is >= 2                     *)
@@ -6988,6 +7004,15 @@ Qed.
 (* ================================================================== *)
 (* 5. T1: the equation                                                 *)
 
+Lemma td_norm_axis_zs nd l : map (norm_axis nd) (zs l) = zs l.
+Proof.
+  unfold zs. rewrite map_map. apply map_ext. intros j. unfold norm_axis.
+  destruct (Z.of_nat j <? 0)%Z eqn:E; [apply Z.ltb_lt in E; lia|reflexivity].
+Qed.
+Lemma td_tdot_equation_pair xa xb sa sb :
+  tdot_equation (AxPair (zs xa) (zs xb)) sa sb = tdot_equation_axes (zs xa) (zs xb) sa sb.
+Proof. unfold tdot_equation. rewrite !td_norm_axis_zs. reflexivity. Qed.
+
 Section td_setting.
 Variables (sa sb xa xb : list nat).
 Hypothesis NDa : NoDup xa.
@@ -7004,7 +7029,7 @@ Theorem td_equation :
   tdot_equation (AxPair (zs xa) (zs xb)) sa sb =
   Some (eq2 (td_ia ra) (td_ib ra rb xa xb) (td_io ra rb xa xb)).
 Proof.
-  unfold tdot_equation. unfold zs at 1 2. rewrite !map_length.
+  rewrite td_tdot_equation_pair. unfold tdot_equation_axes. unfold zs at 1 2. rewrite !map_length.
   fold (zs xa) (zs xb). rewrite HL, Nat.eqb_refl. cbn [negb].
   unfold SYM0.
   pose proof (td_loop_gen sa sb xa xb Hxa HL Hdim (seq 0 rb) [] (seq 4 ra) [] (4 + ra)) as HG.
@@ -7446,7 +7471,7 @@ Theorem td_equation_int n sa sb : n <= length sa ->
   tdot_equation (AxInt n) sa sb =
   tdot_equation (AxPair (zs (seq (length sa - n) n)) (zs (seq 0 n))) sa sb.
 Proof.
-  intros Hn. unfold tdot_equation.
+  intros Hn. rewrite td_tdot_equation_pair. unfold tdot_equation.
   assert (E1 : zrange (Z.of_nat (length sa) - Z.of_nat n) (Z.of_nat (length sa)) =
                zs (seq (length sa - n) n)).
   { rewrite <- td_zrange_seq. f_equal; lia. }
@@ -7755,3 +7780,157 @@ Proof.
   rewrite im_einsum_single_blanks, He.
   apply (im_einsum_single_implicit sz); assumption.
 Qed.
+
+
+
+(* ================================================================== *)
+(* PART 9: the two-operand path sanitises its equation (implicit output, blanks);
+   tensordot normalises negative axes  (/repo 23dce6e, eebb3ef) *)
+
+Lemma nb_parse_bmm_same_sanitize e1 e2 sa sb :
+  sanitize e1 = sanitize e2 -> parse_bmm e1 sa sb = parse_bmm e2 sa sb.
+Proof. intros H. unfold parse_bmm. rewrite H. reflexivity. Qed.
+
+Theorem nb_einsum2_blanks e a b : einsum2 e a b = einsum2 (remove_all SPACE e) a b.
+Proof.
+  unfold einsum2. rewrite (nb_parse_bmm_same_sanitize e (remove_all SPACE e)); [reflexivity|].
+  apply im_sanitize_blanks.
+Qed.
+
+Definition nb_lhs (ta tb : str) : str := ta ++ [COMMA] ++ tb.
+
+Lemma nb_remove_comma ta tb :
+  Forall (fun c => 4 <= c) ta -> Forall (fun c => 4 <= c) tb ->
+  remove_all COMMA (nb_lhs ta tb) = ta ++ tb.
+Proof.
+  intros Ha Hb. unfold nb_lhs, remove_all. rewrite !filter_app. cbn [filter].
+  change (filter (fun x => negb (Nat.eqb x COMMA)) ta) with (remove_all COMMA ta).
+  change (filter (fun x => negb (Nat.eqb x COMMA)) tb) with (remove_all COMMA tb).
+  rewrite !ff_remove_all_id by (apply ff_labels_notin; [unfold COMMA; lia|assumption]).
+  rewrite Nat.eqb_refl. reflexivity.
+Qed.
+
+Lemma nb_lhs_codes ta tb :
+  Forall (fun c => 4 <= c) ta -> Forall (fun c => 4 <= c) tb ->
+  Forall (fun c => 4 <= c \/ c = COMMA) (nb_lhs ta tb).
+Proof.
+  intros Ha Hb. unfold nb_lhs. apply Forall_app. split.
+  - eapply Forall_impl; [|exact Ha]. cbv beta. intros; left; assumption.
+  - constructor; [right; reflexivity|].
+    eapply Forall_impl; [|exact Hb]. cbv beta. intros; left; assumption.
+Qed.
+
+Theorem nb_sanitize_implicit2 ta tb :
+  Forall (fun c => 4 <= c) ta -> Forall (fun c => 4 <= c) tb ->
+  sanitize (nb_lhs ta tb) = Some (nb_lhs ta tb, im_implicit_out (ta ++ tb)).
+Proof.
+  intros Ha Hb. pose proof (nb_lhs_codes ta tb Ha Hb) as HA. rewrite Forall_forall in HA.
+  unfold sanitize.
+  rewrite ff_remove_all_id.
+  2:{ intros Hin. destruct (HA _ Hin) as [H|H]; unfold SPACE, COMMA in *; lia. }
+  rewrite ff_has_ellipsis_false.
+  2:{ intros Hin. destruct (HA _ Hin) as [H|H]; unfold DOT, COMMA in *; lia. }
+  assert (Em : memb ARROW (nb_lhs ta tb) = false).
+  { apply memb_false. intros Hin. destruct (HA _ Hin) as [H|H]; unfold ARROW, COMMA in *; lia. }
+  rewrite Em. cbn [negb]. rewrite nb_remove_comma by assumption. reflexivity.
+Qed.
+
+Lemma nb_eq2_eq1 ta tb out : eq2 ta tb out = eq1 (nb_lhs ta tb) out.
+Proof. unfold eq1, eq2, nb_lhs. rewrite <- !app_assoc. reflexivity. Qed.
+
+(* 'ab,bc' means 'ab,bc->ac': the implicit form is the explicit one with numpy's implicit output *)
+Theorem nb_einsum2_implicit_is_explicit ta tb a b :
+  Forall (fun c => 4 <= c) ta -> Forall (fun c => 4 <= c) tb ->
+  einsum2 (nb_lhs ta tb) a b = einsum2 (eq2 ta tb (im_implicit_out (ta ++ tb))) a b.
+Proof.
+  intros Ha Hb. unfold einsum2.
+  rewrite (nb_parse_bmm_same_sanitize (nb_lhs ta tb) (eq2 ta tb (im_implicit_out (ta ++ tb)))); [reflexivity|].
+  rewrite nb_sanitize_implicit2 by assumption.
+  rewrite nb_eq2_eq1, ff_sanitize_explicit_gen; [reflexivity| |].
+  - apply nb_lhs_codes; assumption.
+  - apply im_implicit_out_labels. apply Forall_app. split; assumption.
+Qed.
+
+Theorem nb_einsum2_implicit (sz : nat -> nat) ta tb a b :
+  tshape a = map sz ta -> tshape b = map sz tb -> wf_tensor a = true -> wf_tensor b = true ->
+  Forall (fun c => 4 <= c) ta -> Forall (fun c => 4 <= c) tb ->
+  einsum2 (nb_lhs ta tb) a b = Some (einsum_ref [ta; tb] (im_implicit_out (ta ++ tb)) [a; b]).
+Proof.
+  intros Hsa Hsb Hwa Hwb Ha Hb.
+  rewrite nb_einsum2_implicit_is_explicit by assumption.
+  apply (fin_einsum2_correct_gen sz); try assumption.
+  - apply im_implicit_out_nodup.
+  - apply im_implicit_out_incl.
+  - apply im_implicit_out_labels. apply Forall_app. split; assumption.
+Qed.
+
+(* blanks anywhere in an explicit two-operand equation *)
+Theorem nb_einsum2_blanks_explicit (sz : nat -> nat) e ta tb out a b :
+  remove_all SPACE e = eq2 ta tb out ->
+  tshape a = map sz ta -> tshape b = map sz tb -> wf_tensor a = true -> wf_tensor b = true ->
+  NoDup out -> incl out (ta ++ tb) ->
+  Forall (fun c => 4 <= c) ta -> Forall (fun c => 4 <= c) tb -> Forall (fun c => 4 <= c) out ->
+  einsum2 e a b = Some (einsum_ref [ta; tb] out [a; b]).
+Proof.
+  intros He Hsa Hsb Hwa Hwb Hnd Hi Ha Hb Ho.
+  rewrite nb_einsum2_blanks, He. apply (fin_einsum2_correct_gen sz); assumption.
+Qed.
+
+(* ------------------------------------------------------------------ *)
+(* negative axes *)
+Definition nb_axes (nd : nat) (l : list Z) : list nat := map (fun z => Z.to_nat (norm_axis nd z)) l.
+Definition nb_in_range (nd : nat) (l : list Z) : Prop :=
+  Forall (fun z => (- Z.of_nat nd <= z < Z.of_nat nd)%Z) l.
+
+Lemma nb_norm_axes nd l : nb_in_range nd l -> map (norm_axis nd) l = zs (nb_axes nd l).
+Proof.
+  intros H. unfold zs, nb_axes. rewrite map_map. apply map_ext_in. intros z Hz.
+  unfold nb_in_range in H. rewrite Forall_forall in H. specialize (H z Hz).
+  unfold norm_axis. destruct (z <? 0)%Z eqn:E.
+  - apply Z.ltb_lt in E. rewrite Z2Nat.id by lia. reflexivity.
+  - apply Z.ltb_ge in E. rewrite Z2Nat.id by lia. reflexivity.
+Qed.
+
+Lemma nb_axes_lt nd l : nb_in_range nd l -> Forall (fun j => j < nd) (nb_axes nd l).
+Proof.
+  intros H. unfold nb_axes. apply Forall_forall. intros j Hj. apply in_map_iff in Hj.
+  destruct Hj as (z & <- & Hz). unfold nb_in_range in H. rewrite Forall_forall in H. specialize (H z Hz).
+  unfold norm_axis. destruct (z <? 0)%Z eqn:E.
+  - apply Z.ltb_lt in E. lia.
+  - apply Z.ltb_ge in E. lia.
+Qed.
+
+Theorem nb_tensordot_normalises xa xb a b :
+  nb_in_range (length (tshape a)) xa -> nb_in_range (length (tshape b)) xb ->
+  tensordot (AxPair xa xb) a b =
+  tensordot (AxPair (zs (nb_axes (length (tshape a)) xa)) (zs (nb_axes (length (tshape b)) xb))) a b.
+Proof.
+  intros Ha Hb. unfold tensordot, parse_tdot.
+  rewrite td_tdot_equation_pair. unfold tdot_equation.
+  rewrite (nb_norm_axes _ _ Ha), (nb_norm_axes _ _ Hb). reflexivity.
+Qed.
+
+(* every axes pair with entries in [-ndim, ndim): after normalisation it is the definition *)
+Theorem nb_tensordot_signed_correct xa xb a b :
+  let ra := length (tshape a) in let rb := length (tshape b) in
+  nb_in_range ra xa -> nb_in_range rb xb ->
+  NoDup (nb_axes ra xa) -> NoDup (nb_axes rb xb) -> length xa = length xb ->
+  dims_at (tshape a) (nb_axes ra xa) = dims_at (tshape b) (nb_axes rb xb) ->
+  wf_tensor a = true -> wf_tensor b = true ->
+  tensordot (AxPair xa xb) a b = Some (tensordot_ref (nb_axes ra xa) (nb_axes rb xb) a b).
+Proof.
+  intros ra rb Ha Hb Na Nb HL Hd Wa Wb.
+  rewrite nb_tensordot_normalises by assumption.
+  apply td_tensordot_correct_dims; try assumption.
+  - apply nb_axes_lt; exact Ha.
+  - apply nb_axes_lt; exact Hb.
+  - unfold nb_axes. rewrite !map_length. exact HL.
+Qed.
+
+(* the former counterexample now agrees with the definition *)
+Example nb_ex_negative_axis :
+  let a : tensor := ([2], [1%Z; 2%Z]) in let b : tensor := ([2], [3%Z; 4%Z]) in
+  tensordot (AxPair [0%Z] [(-1)%Z]) a b = Some (tensordot_ref [0] [0] a b) /\
+  nb_axes 1 [(-1)%Z] = [0] /\
+  tensordot (AxPair [0%Z] [(-1)%Z]) a b = Some ([], [11%Z]).
+Proof. vm_compute. repeat split. Qed.
